@@ -70,6 +70,8 @@ def key_of(place):
     for e in place["p"]:
         if isinstance(e, dict) and "f" in e:
             k += "." + e["f"]
+        elif isinstance(e, dict) and "downcast" in e and e["downcast"]:
+            k += ".@" + e["downcast"]
         else:
             return None
     return k
@@ -545,7 +547,7 @@ class Analysis:
         elif base in ("BitOr", "BitXor"):
             if a[0] >= 0 and b[0] >= 0:
                 m = max(a[1], b[1])
-                raw = (0, (1 << m.bit_length()) - 1)
+                raw = (max(a[0], b[0]) if base == "BitOr" else 0, (1 << m.bit_length()) - 1)
         elif base == "Shr":
             if b[0] == b[1] and 0 <= b[0] < 128 and (a[0] >= 0 or arng[0] < 0):
                 raw = (a[0] >> b[0], a[1] >> b[0])   # logical for unsigned, arithmetic for signed
@@ -631,10 +633,12 @@ class Analysis:
         dest_ty = self.place_ty(key)
         iv, ln, checked = self.rvalue(st, r, dest_ty)
         moved = None
+        moved_sym = []
         if r["k"] == "use":
             sk = key_of(op_place(r["o"])) if op_place(r["o"]) else None
             if sk and self.tracked(sk):
                 moved = [(k2[len(sk):], v) for k2, v in st.iv.items() if k2.startswith(sk + ".") or k2 == sk + "#d"]
+                moved_sym = [(k2[len(sk):], v) for k2, v in st.sym.items() if k2.startswith(sk + ".")]
         cg = self.op_cong(st, r["o"]) if r["k"] in ("use",) else 1
         st.kill(key)
         if not self.tracked(key):
@@ -656,6 +660,9 @@ class Analysis:
         if moved:
             for suf, v in moved:
                 st.iv[key + suf] = v
+        for suf, v in moved_sym:
+            if not any(_mentions(x, key) for x in lin_syms(v)):
+                st.sym[key + suf] = v
 
     def block_transfer(self, bi, st, upto=None):
         blk = self.b.blocks[bi]
@@ -961,6 +968,23 @@ class Analysis:
             if ak and self.tracked(ak):
                 arg_d = st.iv.get(ak + "#d")
                 arg_cond = st.cond.get(ak)
+        range_next = None
+        if re.search(r"iter::range::<impl core::iter::Iterator for core::ops::Range<A>>::next$|Iterator for core::ops::Range<A>>::next$", name) and args:
+            pk = key_of(op_place(args[0])) if op_place(args[0]) else None
+            it = self._pointee(pk) if pk else None
+            if it:
+                s_iv = st.iv.get(it + ".start") or ty_range(self.place_ty(it + ".start") or "usize")
+                e_iv = st.iv.get(it + ".end") or ty_range(self.place_ty(it + ".end") or "usize")
+                e_ln = st.sym.get(it + ".end")
+                if e_ln is not None and any(_mentions(x, it) for x in lin_syms(e_ln)):
+                    e_ln = None
+                range_next = (s_iv, e_iv, e_ln, it)
+        copy_fields = None
+        if name.endswith("IntoIterator>::into_iter") and args and op_place(args[0]) is not None:
+            sk = key_of(op_place(args[0]))
+            if sk and self.tracked(sk):
+                copy_fields = ([(k2[len(sk):], v) for k2, v in st.iv.items() if k2.startswith(sk + ".")],
+                               [(k2[len(sk):], v) for k2, v in st.sym.items() if k2.startswith(sk + ".")])
         new_cond = None
         summ = self.summaries.get(name)
         if summ and summ.get("ok"):
@@ -993,6 +1017,28 @@ class Analysis:
         if not key or not self.tracked(key):
             return
         dty = self.tys.get(key)
+        if range_next is not None:
+            s_iv, e_iv, e_ln, it = range_next
+            pay = key + ".@Some.0"
+            if s_iv and e_iv and s_iv[0] <= e_iv[1] - 1:
+                st.iv[pay] = (s_iv[0], e_iv[1] - 1)
+            if e_ln is not None:
+                st.facts = st.facts | frozenset([lin_add(lin_add(lin_sym(pay), lin_const(1)), e_ln, -1)])
+            # the iterator keeps its end; its start only grows
+            if e_iv:
+                st.iv[it + ".end"] = e_iv
+            if e_ln is not None:
+                st.sym[it + ".end"] = e_ln
+            if s_iv and e_iv:
+                st.iv[it + ".start"] = (s_iv[0], max(e_iv[1], s_iv[1]))
+            return
+        if copy_fields is not None:
+            for suf, v in copy_fields[0]:
+                st.iv[key + suf] = v
+            for suf, v in copy_fields[1]:
+                if not any(_mentions(x, key) for x in lin_syms(v)):
+                    st.sym[key + suf] = v
+            return
         rc = self._range_contains(t)
         if rc is not None:
             cur = st.iv.get(rc[0]) or ty_range(self.place_ty(rc[0]))
